@@ -48,7 +48,8 @@ RulePool == << <<99, 97, 115, 101, 69, 120, 97, 99, 116, 77, 97, 116, 99, 104>>,
                <<100, 110, 45, 49>> >>                                              \* dn-1
 \* value units: the adversarial alphabet of C13 (each unit is raw-able only if it is `normal` and well-formed UTF-8)
 UnitPool == << <<97>>, <<42>>, <<40>>, <<41>>, <<92>>, <<0>>, <<32>>, <<58>>, <<61>>, <<195, 169>>, <<126>>, <<60>>, <<10>>, <<127>>,
-               <<171>>, <<255>>, <<240, 159, 152, 128>>, <<62>>, <<38>>, <<124>>, <<33>>, <<50, 97>>, <<226, 130, 172>> >>
+               <<171>>, <<255>>, <<240, 159, 152, 128>>, <<62>>, <<38>>, <<124>>, <<33>>, <<50, 97>>, <<226, 130, 172>>,
+               <<101, 204, 129>>, <<226, 132, 171>> >>   \* e + COMBINING ACUTE (not NFC), ANGSTROM SIGN (NFC maps it to U+00C5)
 
 Hex(d, upper) == IF d < 10 THEN 48 + d ELSE (IF upper THEN 55 ELSE 87) + d
 \* each of the two hex digits picks its letter case independently (RFC 4515: HEX = DIGIT / %x41-46 / %x61-66)
